@@ -25,10 +25,10 @@ def cipher_rule(name, key, d):
     dd = 'enc' if d == 1 else 'dec'
     A = lambda *x: [s.format(b=b, d=dd) for s in x]
     R = {
-        'CBC': (A(r'aes{b}_enc', r'aes_cbc_enc_{b}') if d == 1 else A(r'aes_cbc_dec_{b}', r'aes{b}_dec'), []),
+        'CBC': (A(r'aes{b}_enc', r'aes_cbc_enc_{b}', r'aes{b}_cbc_enc') if d == 1 else A(r'aes_cbc_dec_{b}', r'aes{b}_dec'), []),
         'CNTR': (A(r'aes_cntr_{b}_(?!bit)', r'aes_cntr_{b}$', r'aes{b}_cntr(?!_bit|_ccm)'), []),
         'NULL': ([], []),
-        'DOCSIS_SEC_BPI': (A(r'aes{b}_enc', r'aes_cbc_enc_{b}', r'aes_docsis{b}_enc', r'docsis{b}_sec_crc_enc', r'docsis_aes{b}_enc', r'aes_docsis_enc_{b}') if d == 1
+        'DOCSIS_SEC_BPI': (A(r'aes{b}_enc', r'aes_cbc_enc_{b}', r'aes{b}_cbc_enc', r'aes_docsis{b}_enc', r'docsis{b}_sec_crc_enc', r'docsis_aes{b}_enc', r'aes_docsis_enc_{b}') if d == 1
                            else A(r'aes_cbc_dec_{b}', r'aes_docsis{b}_dec', r'aes_docsis_dec_{b}', r'docsis_aes{b}_dec', r'docsis{b}_sec_crc_dec'),
                            A(r'aes_cfb_{b}_one', r'ethernet_fcs', r'aes_docsis\w*{b}')),
         'GCM': (A(r'aes_gcm_{d}_var_iv_{b}', r'aes_gcm_{d}_{b}'), []),
@@ -48,10 +48,10 @@ def cipher_rule(name, key, d):
         'CHACHA20_POLY1305_SGL': ([r'aead_chacha20_poly1305_sgl'], []),
         'SNOW_V': ([r'^snow_v_(?!aead)'], []),
         'SNOW_V_AEAD': ([r'snow_v_aead_init'], [r'ghash', r'gcm_precomp|ghash_pre']),
-        'GCM_SGL': (A(r'aes_gcm_{d}_{b}_(update|finalize)'), A(r'aes_gcm_init_var_iv_{b}', r'aes_gcm_init_{b}', r'aes_gcm_{d}_{b}')),
+        'GCM_SGL': (A(r'aes_gcm_{d}_{b}_(update|finalize)'), A(r'aes_gcm_init_var_iv_{b}', r'aes_gcm_init_{b}', r'aes_gcm_{d}_{b}', r'aes_gcm_(enc|dec)_{b}_finalize')),   # finalisation is direction-independent
         'SM4_ECB': ([r'sm4_ecb'], []), 'SM4_CBC': (A(r'sm4_cbc_{d}'), []), 'SM4_CNTR': ([r'sm4_ctr'], []),
         'SM4_GCM': ([r'sm4_ctr', r'sm4_gcm'], [r'sm4_ecb', r'ghash', r'sm4_\w+']),
-        'CFB': (A(r'aes_cfb_{b}_{d}', r'aes{b}_cfb_{d}'), []),
+        'CFB': (A(r'aes_cfb_{b}_{d}', r'aes{b}_cfb_{d}', r'aes_cfb_{d}_{b}'), []),
     }
     return R[name]
 
@@ -62,7 +62,8 @@ def hash_rule(hname):
         'HMAC_SHA_384': [r'hmac_sha_?384'], 'HMAC_SHA_512': [r'hmac_sha_?512'], 'AES_XCBC': [r'aes_?(128_)?xcbc'], 'MD5': [r'hmac_md5'],
         'NULL': None, 'AES_GMAC': None, 'AES_CCM': [r'aes128_ccm_auth|aes256_ccm_auth|aes_ccm_auth'], 'AES_CMAC': [r'aes128_cmac_auth|aes_cmac_auth'],
         'SHA_1': [r'job_sha_?1_'], 'SHA_224': [r'job_sha_?224_'], 'SHA_256': [r'job_sha_?256_'], 'SHA_384': [r'job_sha_?384_'], 'SHA_512': [r'job_sha_?512_'],
-        'AES_CMAC_BITLEN': [r'aes128_cmac_auth|aes_cmac_auth'], 'PON_CRC_BIP': None, 'ZUC_EIA3_BITLEN': [r'zuc_eia3'], 'DOCSIS_CRC32': [r'ethernet_fcs'],
+        'AES_CMAC_BITLEN': [r'aes128_cmac_auth|aes_cmac_auth'], 'PON_CRC_BIP': None, 'ZUC_EIA3_BITLEN': [r'zuc_eia3'], 'DOCSIS_CRC32': None,   # the CRC is computed inside the DOCSIS cipher stage; the hash stage only marks completion
+        
         'SNOW3G_UIA2_BITLEN': [r'snow3g_uia2|snow3g_f9'], 'KASUMI_UIA1': [r'kasumi_f9'], 'AES_GMAC_128': [r'gmac\w*_128|aes_gcm\w*_128|ghash'],
         'AES_GMAC_192': [r'gmac\w*_192|aes_gcm\w*_192|ghash'], 'AES_GMAC_256': [r'gmac\w*_256|aes_gcm\w*_256|ghash'], 'AES_CMAC_256': [r'aes256_cmac_auth'],
         'POLY1305': [r'poly1305'], 'CHACHA20_POLY1305': None, 'CHACHA20_POLY1305_SGL': None, 'ZUC256_EIA3_BITLEN': [r'zuc256_eia3'], 'SNOW_V_AEAD': None,
@@ -119,7 +120,8 @@ def run(ctx):
     for n, (v, _) in CIPHERS.items():
         if cmodes.get(n) != v:
             ctx.violation('enum:%s' % n, 'IMB_CIPHER_%s is %s in intel-ipsec-mb.h but the documented value is %d' % (n, cmodes.get(n), v))
-    archs = ['sse_t1', 'avx512_t2'] if ctx.quick() else list(ARCH_FILES)
+    archs = list(ARCH_FILES)
+    full = set(['sse_t1', 'avx512_t2']) if ctx.quick() else set(ARCH_FILES)   # quick: the other variants get the submit cells only
     if os.environ.get('VERIF_ARCHS'):
         archs = os.environ['VERIF_ARCHS'].split(',')
     ctx.bounds.update({'cells': 'every permitted (cipher_mode,key size,direction) and every hash_alg, job fields and manager contents fully symbolic',
@@ -144,12 +146,12 @@ def run(ctx):
         for n, (mode, keys) in CIPHERS.items():
             for k in keys:
                 for d in (1, 2):
-                    for kind in (0, 1, 4, 5):
+                    for kind in ((0, 1, 4, 5) if a in full else (0,)):
                         work.append((a, (kind, mode, k, d, hashes['NULL']), n, None))
         for hn, hv in hashes.items():
             if hn == 'CUSTOM' or hash_rule(hn) == 'UNKNOWN' and False:
                 continue
-            for kind in (2, 3, 6, 7):
+            for kind in ((2, 3, 6, 7) if a in full else (2,)):
                 work.append((a, (kind, cmodes['NULL'], 16, 1, hv), None, hn))
 
     def one(w):
